@@ -99,7 +99,8 @@ class C19(Check):
         "floats, bools, None, lists, dicts, empty string) or a string from a grammar: curated importable "
         "modules x attribute kinds (function, sub-module, generic alias, type variable, non-serialisable class, "
         "instance, dunder), junk names, dot patterns (leading/trailing/double/only dots, whitespace), a module "
-        "whose import raises ImportError; also the tag key absent; each call optionally preceded, in the same process, "
+        "whose import raises ImportError; also the tag key absent; the document is given to the module-level from_json, to SubclassJSONSerializer.from_json "
+        "or to from_json of a concrete harness class (whose name also occurs as last tag component); each call optionally preceded, in the same process, "
         "by 0-3 successful deserialisations of harness classes / registered types whose names also occur as last "
         "tag components under wrong modules. Oracle: from_json raises a "
         "JSONSerializationError subclass; the four cases pinned by the repository tests keep their class. "
@@ -142,7 +143,8 @@ class C19(Check):
         tag = st.one_of(strings, strings, jsonv, scalars, st.just({"absent": True}))
         payload = st.dictionaries(st.sampled_from(["x", "y", "value", "name"]), scalars, max_size=3)
         warm = st.one_of(st.just([]), st.lists(st.sampled_from(WARM), max_size=3))
-        return st.tuples(tag, payload, warm).map(lambda p: dict(tag=p[0], payload=p[1], warm=p[2]))
+        via = st.sampled_from([None, None, "base"] + WARM[:5])
+        return st.tuples(tag, payload, warm, via).map(lambda p: dict(tag=p[0], payload=p[1], warm=p[2], via=p[3]))
 
     def run(self, ir) -> Outcome:
         from krrood.adapters import json_serializer as js
@@ -187,8 +189,19 @@ class C19(Check):
                         return Outcome(rejected=True)  # C18's subject
             except Exception:
                 return Outcome(rejected=True)
+        via = ir.get("via")
+        entry = js.from_json
+        if via == "base":
+            entry = js.SubclassJSONSerializer.from_json
+        elif via in WARM[:5]:
+            from ..models import json_tree as jt
+
+            entry = jt.CLASSES[via].from_json  # called on a concrete class: the tag decides, not the receiver
+            classes.append("called_on_concrete_class")
+            if isinstance(tag, str) and tag.rpartition(".")[2] == via:
+                classes.append("last_component_names_the_receiving_class")
         try:
-            res = js.from_json(data)
+            res = entry(data)
         except js.JSONSerializationError as exc:
             want = "MissingTypeError" if absent else (PINNED.get(tag) if isinstance(tag, str) else None)
             if want and type(exc).__name__ != want:
